@@ -83,6 +83,9 @@ type l2World struct {
 	histEntriesAtBegin uint32
 	histWritten map[int64]bool
 	noWrap    bool
+	lastRes   *abci.ResponseFinalizeBlock
+	lastFired []bool
+	lastCalls [][]string
 	planClass string
 	opts      node.L2Options
 }
@@ -142,10 +145,12 @@ func newL2World(r *core.Run, p *l2Profile) *l2World {
 		w.users = append(w.users, node.AddrN("l2user", i))
 	}
 	nex := 1 + r.Intn(3)
-	for i := 0; i < nex; i++ {
-		a := node.AddrN("executor", i)
+	for i := 0; i < 5; i++ {
+		a := node.AddrN("executor", i) // all candidate executors have accounts; the first nex are listed at genesis
 		w.users = append(w.users, a)
-		w.executors = append(w.executors, a.String())
+		if i < nex {
+			w.executors = append(w.executors, a.String())
+		}
 	}
 	out := node.Addr("outsider")
 	w.users = append(w.users, out)
@@ -708,13 +713,22 @@ func (w *l2World) runBlock() *core.Violation {
 			w.applyTx(spec, msgs, bc, nil, false)
 		}
 	}
-	raw := make([][]byte, len(txs))
-	for i := range txs {
-		raw[i] = txs[i].Bytes
-	}
 	crash := ""
 	if w.p.Crash > 0 && r.Chance(w.p.Crash, 100) {
 		crash = []string{"before-finalize", "after-finalize-before-commit", "after-commit"}[r.Intn(3)]
+	}
+	return w.execBlock(bc, txs, crash)
+}
+
+// execBlock executes a prepared block, runs the lock-step model over its
+// results and compares the complete state.
+func (w *l2World) execBlock(bc blockCtx, txs []l2Pending, crash string) *core.Violation {
+	r := w.r
+	T := bc.Time
+	w.lastRes = nil
+	raw := make([][]byte, len(txs))
+	for i := range txs {
+		raw[i] = txs[i].Bytes
 	}
 	r.Step("block", "h=%d t=+%s txs=%d crash=%q", bc.Height, T.Sub(simEpoch), len(txs), crash)
 	if crash == "before-finalize" {
@@ -760,6 +774,9 @@ func (w *l2World) runBlock() *core.Violation {
 	w.hist[bc.Height] = start
 
 	anySuccess := false
+	w.lastRes = res
+	w.lastFired = fired
+	w.lastCalls = append([][]string{}, w.n.Fault.TxCalls...)
 	for i, pt := range txs {
 		tr := toTxRes(w.enc, res.TxResults[i])
 		ff := i < len(fired) && fired[i]
